@@ -2,6 +2,15 @@
 PENDING_REASON = "static rules designed in DESIGN.md §3 but the check is not registered yet (under construction)"
 
 CLAIMS = {
+    "C18": {
+        "technique": "static analysis: reaching-definition shape of every weight store, interval argument from the syntactic shape of the decay factor and its guards, must-pass of a total-key sort before truncation, key provenance at edge insertions, write-set and gate-dominance checks, one cross-module obligation against the validator",
+        "text": "Decides on gel.py: observations store only _clamp(., graph.update.clamp_min, clamp_max); a tick stores only previous*factor with factor 0.0 or c**(max(0,dt)/half_life>0), c in (0,1), "
+                "queues exactly the |w|<floor edges and deletes them after the iteration, and 0 lies in the clamp interval (validator) so shrinking stays in bounds; every edge insertion is keyed by _edge_key; "
+                "the candidate list is threshold-filtered and sorted by (-score,id) before any truncation and pair updates are counted against the pair cap; merge/split append only under meta, promotion inserts "
+                "concept nodes only if absent with previous-content-independent edge fields, candidate functions write nothing; no state access before the graph.enabled test.",
+        "note": "Not decided: idempotence of promotion and order-insensitivity of observation as executed input/output laws, float monotonicity to the ulp, NaN weights already present in a loaded state. "
+                "apply_promotion clamps attach_weight to [-1,1], not to graph.update.clamp_* (outside the statement's observations-and-ticks clause; information only).",
+    },
     "C03": {
         "technique": "static analysis: transitive effect analysis (mutation origin, I/O, nondeterminism), def-use chain of the stage pipeline, guard-fact/reaching-definition shape of the numeric kernels, constructor provenance, order-dependent-fold and key-injectivity rules",
         "text": "Decides on t4.py: t4_filter and its callees are effect-free and read nothing but their arguments; approved_deltas is, on every return, sorted(canonical key) of "
